@@ -303,6 +303,9 @@ func (app *App) addPrefixToRoute(prefix string, route *Route) *Route {
 	// The prefix may contain parameters of its own: recompute the parameter keys from the
 	// prefixed path exactly as register does, otherwise Route.match never consults the parser.
 	route.Params = parseRoute(prefixedPath, app.customConstraints...).params
+	if len(route.Params) > maxParams {
+		panic(fmt.Sprintf("route %s has %d parameters, at most %d are supported\n", prefixedPath, len(route.Params), maxParams))
+	}
 	// Same shortcuts as register: only a sub-app route mounted at "/" can still be the root or
 	// the catch-all route, every other prefixed path is neither.
 	route.root = route.path == "/"
@@ -366,6 +369,9 @@ func (app *App) register(methods []string, pathRaw string, group *Group, handler
 	pathClean := RemoveEscapeChar(pathPretty)
 
 	parsedRaw := parseRoute(pathRaw, app.customConstraints...)
+	if len(parsedRaw.params) > maxParams {
+		panic(fmt.Sprintf("route %s has %d parameters, at most %d are supported\n", pathRaw, len(parsedRaw.params), maxParams))
+	}
 	// matching is done on the lower-cased pattern, the constraints are the ones written
 	parsedPretty := parseRouteWritten(pathPretty, pathRaw[:len(pathPretty)], app.customConstraints...)
 
